@@ -9,6 +9,9 @@ TemplatesTrace compares python, template and the TLA+ transcription `Eval`.
 Part B (freshness): the Templates state machine is model checked (NoStaleAtRest, Notified ...); schedules from TLC
 are executed on a booted machine with a running two player game, with a manual subscriber, a consumer in the
 `_update_subscription` pattern, a condition-driven event_player entry and a conditional event handler.
+Settings are a variable source of their own: `st` is stored under its own name, `sq` in a differently named machine
+variable (`machine_var: qv` in the config), `sc` is a SettingEntry added by code with a machine variable of its own;
+they change through the settings controller (`set`) and directly through the backing machine variable (`setm`).
 """
 import ast
 import asyncio
@@ -127,7 +130,8 @@ VARSRC = {('ma', 'attr'): 'machine.a', ('ma', 'idx'): 'machine["a"]',
           ('mb', 'attr'): 'machine.b', ('mb', 'idx'): 'machine["b"]',
           ('px', 'attr'): 'current_player.x', ('px', 'idx'): 'current_player["x"]',
           ('p2x', 'attr'): 'players[1].x', ('p2x', 'idx'): 'players[1]["x"]',
-          ('st', 'attr'): 'settings.st',
+          ('st', 'attr'): 'settings.st', ('sq', 'attr'): 'settings.sq', ('sc', 'attr'): 'settings.sc',
+          ('mq', 'attr'): 'machine.qv', ('mq', 'idx'): 'machine["qv"]',
           ('sw', 'attr'): 'device.switches.s1.state', ('sw', 'idx'): 'device["switches"]["s1"]["state"]',
           ('cv', 'attr'): 'device.counters.c1.value', ('cv', 'idx'): 'device["counters"]["c1"]["value"]',
           ('kp', 'attr'): 'kp', ('kq', 'attr'): 'kq'}
@@ -262,7 +266,8 @@ def count_of_size(n, memo=None):
 # random bigger expressions over an extended leaf set (floats, negative ints, index-style access, parameters)
 X_LITS = ENUM_LITS + [I(3), I(5), I(-1), I(-2), S('b'), S('ab')]
 X_VARS = [var('ma'), var('mb'), var('px'), var('p2x'), var('st'), var('sw'), var('cv'), var('kp'), var('kq'),
-          var('ma', 'idx'), var('px', 'idx'), var('sw', 'idx'), var('cv', 'idx')]
+          var('ma', 'idx'), var('px', 'idx'), var('sw', 'idx'), var('cv', 'idx'),
+          var('sq'), var('sc'), var('mq'), var('mq', 'idx')]
 X_FLOATS = [0.0, 0.5, 1.5, 2.0, -1.0]
 
 
@@ -321,18 +326,24 @@ def rand_expr(rnd, n, in_exp=False, basic=False):
 
 
 # ----------------------------------------------------------------------------------------------- environments
-def mkenv(ma, mb, px, st, sw, cv, kp, game=True, cur=1):
-    return {'ma': ma, 'mb': mb, 'px': list(px), 'st': st, 'sw': sw, 'cv': cv, 'kp': kp, 'game': game, 'cur': cur}
+def mkenv(ma, mb, px, st, sw, cv, kp, game=True, cur=1, sq=None, sc=None):
+    """st, sq, sc: the value of the machine variable behind the setting (NONE: that variable does not exist)."""
+    return {'ma': ma, 'mb': mb, 'px': list(px), 'st': st, 'sq': sq or NONE, 'sc': sc or I(3), 'sw': sw, 'cv': cv, 'kp': kp,
+            'game': game, 'cur': cur}
 
 
+# settings: name -> (machine variable it is stored in, default); all have the value table {1, 2, 3}
+SETTINGS = {'st': ('st', 2), 'sq': ('qv', 1), 'sc': ('c_store', 3)}
+SVALID = {1: 'one', 2: 'two', 3: 'three'}
 ENVS_A = [mkenv(NONE, I(2), (I(0), I(1)), I(2), I(0), I(0), I(1)),
-          mkenv(I(3), NONE, (I(2), I(0)), I(1), I(1), I(5), S('a')),
-          mkenv(S('a'), I(0), (I(1), I(3)), I(3), I(0), I(2), NONE)]
+          mkenv(I(3), NONE, (I(2), I(0)), I(1), I(1), I(5), S('a'), sq=I(3), sc=I(5)),
+          mkenv(S('a'), I(0), (I(1), I(3)), I(3), I(0), I(2), NONE, sq=S('a'), sc=I(1))]
 ENV_B = mkenv(I(1), NONE, (I(0), I(0)), I(2), I(0), I(0), I(1))
 ENV_B0 = dict(ENV_B, game=False)       # no game running at the start
 MVALS = [I(0), I(1), I(3), S('a')]
 PVALS = [I(0), I(1), I(2)]
 SVALS = [I(1), I(2), I(3)]
+SMVALS = [I(1), I(3), I(5), S('a')]      # assigned to the machine variable behind a setting: 5 and 'a' are not in the table
 WVALS = [I(0), I(1)]
 CVALS = [I(0), I(2), I(3)]
 
@@ -376,8 +387,12 @@ def py_namespace(env):
         players = [_NoGame(), _NoGame()]
         cur = _NoGame()
     dev = {'switches': _NS({'s1': _NS({'state': dec(env['sw'])})}), 'counters': _NS({'c1': _NS({'value': dec(env['cv'])})})}
-    return {'machine': _NS({'a': dec(env['ma']), 'b': dec(env['mb'])}, None), 'current_player': cur, 'players': players,
-            'settings': _NS({'st': dec(env['st'])}), 'device': _NS(dev), 'kp': dec(env['kp']),
+    sett = {}
+    for s, (_, default) in SETTINGS.items():     # the stored value if it is one of the setting's values, else the default
+        raw = dec(env[s])
+        sett[s] = raw if (raw is not None and raw in SVALID) else default
+    return {'machine': _NS({'a': dec(env['ma']), 'b': dec(env['mb']), 'qv': dec(env['sq'])}, None), 'current_player': cur,
+            'players': players, 'settings': _NS(sett), 'device': _NS(dev), 'kp': dec(env['kp']),
             '_AND': lambda a, b: a and b, '_OR': lambda a, b: a or b}
 
 
@@ -418,6 +433,7 @@ def C(i, name, expr, ep=True, hnd=True, cls='attr', ge=True):
 
 
 MA, MB, PX, P2X, ST, SW, CV = var('ma'), var('mb'), var('px'), var('p2x'), var('st'), var('sw'), var('cv')
+SQ, SC, MQ = var('sq'), var('sc'), var('mq')
 L = lambda n: lit(I(n))     # noqa: E731
 TABLE = [
     C(1, 'machine-var', MA),
@@ -452,6 +468,15 @@ TABLE = [
     C(30, 'ifexp-three-families', if_(PX, ST, CV)),
     C(31, 'const-left-of-compare', cmp_('ge', L(2), CV)),
     C(32, 'and-three-operands', bool_('and', bool_('and', MA, SW), ST)),
+    # settings stored in a machine variable with another name (sc is added by code after the boot: no event_player entry)
+    C(33, 'setting-own-mvar', SQ),
+    C(34, 'setting-own-mvar-eq', cmp_('eq', SQ, L(3))),
+    C(35, 'setting-own-mvar-plus-machine-var', bin_('add', SQ, MA)),
+    C(36, 'setting-added-in-code-ge', cmp_('ge', SC, L(2)), ep=False),
+    C(37, 'setting-and-its-machine-var', bin_('add', SQ, MQ)),
+    C(38, 'two-settings-compare', cmp_('lt', ST, SQ)),
+    C(39, 'ifexp-over-settings', if_(cmp_('eq', SQ, L(1)), SC, ST), ep=False),
+    C(40, 'machine-var-behind-setting', cmp_('gt', MQ, L(1))),
 ]
 TAB = {c['id']: c for c in TABLE}
 
@@ -461,7 +486,10 @@ def write_machine(scratch):
     os.makedirs(d + '/config', exist_ok=True)
     Ls = ['#config_version=6', 'game:', '  balls_per_game: 60', 'machine_vars:', '  a:', '    initial_value: 1',
           '    value_type: int', 'settings:', '  st:', '    label: St', '    values:', '      1: "one"', '      2: "two"',
-          '      3: "three"', '    default: 2', '    key_type: int', '    sort: 1', 'switches:', '  s_start:',
+          '      3: "three"', '    default: 2', '    key_type: int', '    sort: 1',
+          '  sq:', '    label: Sq', '    values:', '      1: "one"', '      2: "two"', '      3: "three"',
+          '    default: %d' % SETTINGS['sq'][1], '    key_type: int', '    sort: 2', '    machine_var: %s' % SETTINGS['sq'][0],
+          'switches:', '  s_start:',
           '    number: 1', '    tags: start', '  s1:', '    number: 2', 'counters:', '  c1:', '    count_events: c1_hit',
           '    starting_count: 0', '    persist_state: false', '    control_events:']
     for v in sorted({dec(x) for x in CVALS} | {0, 1, 5}):
@@ -500,6 +528,9 @@ def _machine(mdir):
         _H['h'] = h
         _H['ep'] = {}
         _H['hnd'] = {}
+        from mpf.core.settings_controller import SettingEntry
+        h.machine.settings.add_setting(SettingEntry('sc', 'Sc', 3, SETTINGS['sc'][0], SETTINGS['sc'][1], dict(SVALID),
+                                                    'standard'))
         for c in TABLE:
             if c['ep']:
                 h.machine.events.add_handler('ep_%d' % c['id'], _counter('ep', c['id']))
@@ -537,7 +568,17 @@ def install_env(h, env, restart=False):
                 m.variables.machine_vars.pop(name, None)
         else:
             m.variables.set_machine_var(name, v)
-    m.settings.set_setting_value('st', dec(env['st']))
+    for s, (mvar, _) in SETTINGS.items():
+        v = dec(env[s])
+        if v is None:
+            if mvar in m.variables.machine_vars:
+                m.variables.set_machine_var(mvar, None)
+                _run(h, 3)
+                m.variables.machine_vars.pop(mvar, None)
+        elif v in SVALID:
+            m.settings.set_setting_value(s, v)
+        else:
+            m.variables.set_machine_var(mvar, v)
     if bool(m.switch_controller.is_active(m.switches['s1'])) != bool(dec(env['sw'])):
         if dec(env['sw']):
             h.hit_switch_and_run('s1', 0)
@@ -784,8 +825,8 @@ def _exec_b(mdir, cid, sched, env0):
                 n = s['var']
                 if n in ('ma', 'mb'):
                     m.variables.set_machine_var({'ma': 'a', 'mb': 'b'}[n], v)
-                elif n == 'st':
-                    m.settings.set_setting_value('st', v)
+                elif n in SETTINGS:
+                    m.settings.set_setting_value(n, v)
                 elif n == 'sw':
                     if v:
                         h.hit_switch_and_run('s1', 0)
@@ -799,6 +840,10 @@ def _exec_b(mdir, cid, sched, env0):
                     raise ValueError(n)
                 _run(h)
                 obs({'op': 'set', 'var': n, 'p': s.get('p', 0), 'v': s['v']}, ep0)
+            elif op == 'setm':
+                m.variables.set_machine_var(SETTINGS[s['var']][0], dec(s['v']))
+                _run(h)
+                obs({'op': 'setm', 'var': s['var'], 'v': s['v']}, ep0)
             elif op == 'remove':
                 m.variables.remove_machine_var({'ma': 'a', 'mb': 'b'}[s['var']])
                 _run(h)
@@ -841,7 +886,10 @@ def b_symptom(fe, cls='attr'):
     """Label a rejected step of part B from the driver's own ground truth (a fresh evaluate after the step)."""
     op = fe.get('op', '?')
     if op == 'set' and cls != 'index':
-        op = 'set-' + {'ma': 'mvar', 'mb': 'mvar', 'st': 'setting', 'sw': 'device', 'cv': 'device', 'px': 'player'}[fe['var']]
+        op = 'set-' + {'ma': 'mvar', 'mb': 'mvar', 'st': 'setting', 'sq': 'setting-own-mvar', 'sc': 'setting-own-mvar',
+                       'sw': 'device', 'cv': 'device', 'px': 'player'}[fe['var']]
+    if op == 'setm':        # the machine variable behind a setting was assigned directly
+        op = 'setm-' + ('setting' if fe['var'] == 'st' else 'setting-own-mvar')
     if op in ('reeval', 'obs'):
         return op + '-wrong-value'
     if op == 'post':
@@ -861,8 +909,8 @@ def _sset(xs):
 
 
 def _vals_defs():
-    return 'MCMVals == %s\nMCPVals == %s\nMCSVals == %s\nMCWVals == %s\nMCCVals == %s' % (
-        _sset(MVALS), _sset(PVALS), _sset(SVALS), _sset(WVALS), _sset(CVALS))
+    return 'MCMVals == %s\nMCPVals == %s\nMCSVals == %s\nMCWVals == %s\nMCCVals == %s\nMCSMVals == %s' % (
+        _sset(MVALS), _sset(PVALS), _sset(SVALS), _sset(WVALS), _sset(CVALS), _sset(SMVALS))
 
 
 def mc_module_a():
@@ -896,6 +944,7 @@ CONSTANTS
   SVals <- MCSVals
   WVals <- MCWVals
   CVals <- MCCVals
+  SMVals <- MCSMVals
   MaxOps = %d
   MaxSize = %d
   Spurious = %s
@@ -912,6 +961,7 @@ CONSTANTS
   SVals <- TConfigs
   WVals <- TConfigs
   CVals <- TConfigs
+  SMVals <- TConfigs
   MaxOps = 1000000
   MaxSize = 0
   Spurious = {TRUE, FALSE}
@@ -931,6 +981,15 @@ HAND = [
     (18, [{'op': 'set', 'var': 'st', 'v': I(3)}, {'op': 'set', 'var': 'sw', 'v': I(1)}, {'op': 'reeval'},
           {'op': 'set', 'var': 'st', 'v': I(1)}, {'op': 'set', 'var': 'ma', 'v': I(3)}]),
     (32, [{'op': 'set', 'var': 'sw', 'v': I(1)}, {'op': 'reeval'}, {'op': 'post'}, {'op': 'set', 'var': 'st', 'v': I(3)}]),
+    (33, [{'op': 'set', 'var': 'sq', 'v': I(3)}, {'op': 'reeval'}, {'op': 'setm', 'var': 'sq', 'v': I(5)}, {'op': 'reeval'},
+          {'op': 'setm', 'var': 'sq', 'v': S('a')}, {'op': 'set', 'var': 'sq', 'v': I(2)}, {'op': 'reeval'}]),
+    (34, [{'op': 'set', 'var': 'sq', 'v': I(3)}, {'op': 'post'}, {'op': 'reeval'}, {'op': 'set', 'var': 'sq', 'v': I(1)},
+          {'op': 'post'}]),
+    (36, [{'op': 'set', 'var': 'sc', 'v': I(1)}, {'op': 'reeval'}, {'op': 'post'}, {'op': 'setm', 'var': 'sc', 'v': I(5)},
+          {'op': 'reeval'}, {'op': 'post'}]),
+    (38, [{'op': 'set', 'var': 'sq', 'v': I(3)}, {'op': 'post'}, {'op': 'set', 'var': 'st', 'v': I(3)}, {'op': 'reeval'}]),
+    (40, [{'op': 'set', 'var': 'sq', 'v': I(3)}, {'op': 'reeval'}, {'op': 'setm', 'var': 'sq', 'v': I(1)}]),
+    (9, [{'op': 'setm', 'var': 'st', 'v': I(5)}, {'op': 'reeval'}, {'op': 'post'}, {'op': 'set', 'var': 'st', 'v': I(3)}]),
 ]
 
 
@@ -1076,7 +1135,7 @@ def run(ctx):
     # ---- part B on the real code
     with open(wd + '/Gen.cfg', 'w') as f:
         f.write(CFG % ('Spec', 14, 0, '{FALSE}', ''))
-    behs, _ = tlc.simulate(wd, 'TemplatesMCB', 'Gen.cfg', num=1280 if ctx.quick else 8000, depth=12 if ctx.quick else 15,
+    behs, _ = tlc.simulate(wd, 'TemplatesMCB', 'Gen.cfg', num=1600 if ctx.quick else 10000, depth=12 if ctx.quick else 15,
                            seed=ctx.seed)
     jobs = [(mdir, b[0]['cfg']['id'], [_act(s['act']) for s in b], ENV_B if b[0]['env']['game'] else ENV_B0) for b in behs]
     jobs += [(mdir, cid, sched) for cid, sched in HAND]
@@ -1116,6 +1175,8 @@ def run(ctx):
         'a result of None counts as "the default"; evaluate_and_subscribe may raise instead of defaulting for an '
         'undefined bare name (deliberate AssertionError in evaluate_and_subscribe_template)',
         'freshness: a read that cannot influence the outcome while another operand keeps aborting need not notify',
+        'a setting changed when its value (the stored value if it is in the value table, else the default) changed; '
+        'a notification for a change of the backing machine variable that leaves that value alone is allowed',
         'virtual time; game changes are driven by the fake-game test helpers (start_game/add_player/drain/stop)']
 
 
